@@ -13,6 +13,7 @@ from ..exceptions import FailedParse, FailedRef
 from ..objectmodel import nodedataclass
 from ..util import indent, trim
 from .base import PEP8_LLEN, Box, Leaf, Model, Rule
+from .basic import Cut
 from .math import ffset, kdot, ref
 
 
@@ -90,6 +91,10 @@ class SkipTo(Box):
         return '->' + self.exp._pretty(lean=lean)
 
 
+def _has_cut(exp: Model) -> bool:
+    return isinstance(exp, Cut) or any(_has_cut(c) for c in exp.children())
+
+
 @nodedataclass
 class Optional(Box):
     def _parse(self, ctx: Ctx) -> Any:
@@ -122,9 +127,10 @@ class Optional(Box):
 
         exp = self.exp.optimized()
         # NOTE: left and right joins are positive joins without 'Positive' in their names
+        # NOTE: an expression that fails after a cut still fails, and only the optional takes that back
         if isinstance(
             exp, Optional | Closure | Join | Gather
-        ) and not isinstance(exp, PositiveClosure | PositiveJoin | PositiveGather):
+        ) and not isinstance(exp, PositiveClosure | PositiveJoin | PositiveGather) and not _has_cut(exp):
             return exp
         new = copy(self)
         new.exp = exp
